@@ -97,6 +97,11 @@ class Parser:
         return Lark.open("mapfile.lark", rel_to=__file__, parser="lalr", **extra_args)
 
     def _get_include_filename(self, line: str) -> str:
+        rest = line.strip()[len("include") :].lstrip()
+        if rest[:1] in ('"', "'") and rest.find(rest[0], 1) > 0:
+            # a quoted filename is taken as it is (it may contain spaces or a #)
+            return rest[1 : rest.find(rest[0], 1)]
+
         if "#" in line:
             # remove any comments on the same line
             line = line.split("#")[0]
